@@ -75,6 +75,10 @@ with the same id would wrongly revive).  Reusing the id of a committed batch is 
   images with sane flush marks, `SaneMarks` —, batch ids accounted for), so the theorem applies to
   any number of epochs history–crash–`Open`; `Close` + `Open` is the special case of a crash that
   loses nothing, also when a batch is open, partly flushed or abandoned at `Close`.
+* Cross-check of the definition of units: `C03_history_live` (whenever the engine invariant holds
+  for the state reached, the LIVE mapping is `specOfUnits units`), `C03_units_agree_with_C01` (for
+  plain histories the units denote the `C01.specRun` map); `C03_history_restart` (`Close` + `Open`
+  after any history shows the mapping of all units).
 * Non-vacuity: `C03_history_applicable`, `epoch_applicable` (the hypotheses hold for EVERY history
   and a family of crash images), a concrete history with a batch flushed in three pieces over
   three files, and evaluated recovered mappings (`#guard`).
@@ -340,6 +344,49 @@ theorem C03_history_after_sync (dir : String) (cfg cfg' : Cfg) (hcfg : cfg.Valid
   have hdb' : (syncDB (arun (openDB St.init dir cfg).1 pre)).1.db = some db := hdb
   rw [e2] at hdb'; cases hdb'
   exact e4
+
+/-! ## cross-check: the units against the live mapping and the C01 specification -/
+
+/-- **the live mapping is the mapping of the units whenever the engine invariant holds**: if the
+    state a history reaches satisfies `Inv` (no batch object, index = replay of the log — e.g. by
+    the C01 / C05 theorems), then what `Get` sees is `specOfUnits` of all acknowledged units.
+    (Without `Inv` — a batch open, partly flushed or abandoned — the live index runs ahead of the
+    units; a restart then shows `specOfUnits units`, `C03_history_restart`.) -/
+theorem C03_history_live (dir : String) (cfg : Cfg) (hcfg : cfg.Valid)
+    (ops : List AOp) (hok : ∀ op ∈ ops, AOpOK op) (hids : IdsOK (openDB St.init dir cfg).1 h0 ops)
+    (db : DB) (g : GDir) (hs : (arun (openDB St.init dir cfg).1 ops).db = some db)
+    (hinv : Inv (arun (openDB St.init dir cfg).1 ops) db g) :
+    ∀ k, absGet (arun (openDB St.init dir cfg).1 ops) db k
+      = specOfUnits (unitsOf (openDB St.init dir cfg).1 ops) k := by
+  obtain ⟨e0, e1, e2, e3, e4, e5⟩ := fresh_start dir cfg hcfg
+  obtain ⟨L, h, hr, hu⟩ := history_state (freshSt dir cfg) (freshDB dir cfg) [(0, [])] ops [] [] e1 e2 rfl e3
+    (by rw [e5]; intro i hi; exact hi) (by intro x hx; simp [logOf] at hx) hok (by rw [← e0]; exact hids)
+  rw [e4, List.nil_append, ← e0] at hu
+  rw [← e0] at hr
+  obtain ⟨db', g', hi⟩ := hr.hinv
+  rw [hi.open_] at hs
+  cases hs
+  have hg : g = g' := Files_unique hinv.files hi.files
+  subst hg
+  intro k
+  rw [absGet_units hinv.files hinv.index k, hi.units, hu]
+
+/-- **the units of a history of plain operations denote the C01 specification map**: the
+    definition of units (`Put` with non-empty key; `Delete` only when a tombstone is written) agrees
+    with the independent specification `C01.specRun` (`Delete` always removes the key) -/
+theorem C03_units_agree_with_C01 (dir : String) (cfg : Cfg) (hcfg : cfg.Valid) (pl : List C01.Op)
+    (hok1 : ∀ op ∈ pl, C01.OpOK op) (hok : ∀ o ∈ pl.map plainOp, AOpOK o) :
+    ∀ k, specOfUnits (unitsOf (openDB St.init dir cfg).1 (pl.map plainOp)) k
+      = (C01.specRun C01.specEmpty pl).1 k := by
+  obtain ⟨_, habs, ⟨db, g, hs, hinv⟩⟩ := C01.C01_refines_fresh dir cfg hcfg pl hok1
+  have hids : IdsOK (openDB St.init dir cfg).1 h0 (pl.map plainOp) :=
+    idsOK_of_freshIds dir cfg hcfg _ hok (by
+      unfold FreshIds
+      rw [bnewIds_plain]
+      exact ⟨List.nodup_nil, fun i hi => by simp at hi⟩)
+  rw [← arun_plain] at hs hinv habs
+  intro k
+  rw [← C03_history_live dir cfg hcfg _ hok hids db g hs hinv k, ← habs, C01.absOf_eq hs]
 
 /-! ## what was flushed stays flushed -/
 
